@@ -200,3 +200,41 @@ Proof.
     destruct p; [discriminate|]. intros [= <-]. cbn [existsb ps_exp]. simpl Z.ltb. cbn [andb orb]. discriminate.
   - intros [= <-]. eapply inline_paths_errors, Ei.
 Qed.
+
+(* ---------- affine form of a conversion with offsets (C10) ---------- *)
+Lemma convert_affine bd tbl ord offs fuel m s e v :
+  convert bd tbl ord offs fuel m s e = COk v ->
+  exists plan, plan_conversion bd tbl ord offs fuel s e = COk plan /\
+               v == (plan_a plan * pvalQ (upre s)) * m + plan_b plan.
+Proof.
+  intros H. destruct (convert_plan _ _ _ _ _ _ _ _ _ H) as (plan & E & -> & _).
+  exists plan. split; [exact E|]. rewrite apply_plan_affine. ring.
+Qed.
+
+Definition affine_close (eps A B A' B' : Q) : bool :=
+  andb (Qle_bool (Qabs (A - A')) (eps * Qabs A')) (Qle_bool (Qabs (B - B')) (eps * Qabs B')).
+
+(* the plan of s -> e exists, raises nothing, and is the affine map x |-> A x + B with (A, B) within
+   eps (relative) of the ideal coefficients (A', B') *)
+Definition affine_case_ok (bd : env) (tbl : table) (ord : ordtab) (offs : table) (fuel : nat) (eps : Q)
+           (s e : unit3) (A' B' : Q) : bool :=
+  andb (feqb (udim s) (udim e))
+  match plan_conversion bd tbl ord offs fuel s e with
+  | COk plan => andb (negb (plan_div0 plan)) (affine_close eps (plan_a plan * pvalQ (upre s)) (plan_b plan) A' B')
+  | CErr _ => false
+  end.
+
+Theorem affine_case_sound bd tbl ord offs fuel eps s e A' B' :
+  affine_case_ok bd tbl ord offs fuel eps s e A' B' = true ->
+  exists A B, Qabs (A - A') <= eps * Qabs A' /\ Qabs (B - B') <= eps * Qabs B' /\
+    forall m, exists v, convert bd tbl ord offs fuel m s e = COk v /\ v == A * m + B.
+Proof.
+  unfold affine_case_ok, convert. intros H. apply andb_prop in H as [Hd H].
+  destruct (plan_conversion bd tbl ord offs fuel s e) as [plan|] eqn:Ep; [|discriminate].
+  apply andb_prop in H as [Hz Hc]. apply negb_true_iff in Hz.
+  unfold affine_close in Hc. apply andb_prop in Hc as [Ha Hb].
+  apply Qle_bool_iff in Ha. apply Qle_bool_iff in Hb.
+  exists (plan_a plan * pvalQ (upre s)), (plan_b plan). split; [exact Ha|]. split; [exact Hb|].
+  intros m. rewrite Hd. cbn [negb cbind]. rewrite Hz. eexists. split; [reflexivity|].
+  rewrite apply_plan_affine. ring.
+Qed.
